@@ -959,6 +959,9 @@ class Engine:
             for c, ty in T[1].items():
                 cols[c] = self.new_arr(n, ty, kind='series', base='%s.%s' % (name, c), fresh=fresh)
             return Frame(self.new_ident(fresh), n, cols)
+        if tag == 'dictp':
+            # a dictionary with exactly the listed keys, all present
+            return SDict(self.new_ident(fresh), {k: [True, self.make_value('%s.%s' % (name, k), ty, fresh)] for k, ty in T[1].items()})
         if tag == 'dict':
             items = {}
             for k, ty in T[1].items():
